@@ -465,6 +465,29 @@ func ZZ_C12_message() {
 		if !p {
 			rt.Assert(m.SessionID() == sid, "set-session:stored")
 		}
+	case 4:
+		// a fill of a message's variable stores the value and keeps every header field that was
+		// set before it (nothing falls back to a default), in either order of the two steps
+		v, sys := rt.Int16("v"), rt.Bytes("sys", 4)
+		rt.Assume(rt.And(rt.And(base, rt.And(wb >= 0, wb <= 1)), rt.And(!rt.And(wb == 1, fn%2 == 0), rt.And(sid >= 0, sid <= 65535))))
+		t := NewDataMessage("n", st, fn, wb, dirs[di], NewListNode(NewIntNode(2, "x"), NewASCIINodeVariable("s", 0, 3)))
+		vals := map[string]interface{}{"x": v, "s": "ab"}
+		var m *DataMessage
+		if rt.Choice("order", 2) == 0 {
+			m = t.SetSessionIDAndSystemBytes(sid, sys).FillVariables(vals)
+		} else {
+			m = t.FillVariables(vals).SetSessionIDAndSystemBytes(sid, sys)
+		}
+		rt.Assert(m.SessionID() == sid, "message-fill:session-id-kept")
+		got := m.SystemBytes()
+		rt.Assert(len(got) == 4 && got[0] == sys[0] && got[1] == sys[1] && got[2] == sys[2] && got[3] == sys[3], "message-fill:system-bytes-kept")
+		rt.Assert(rt.And(m.StreamCode() == st, m.FunctionCode() == fn), "message-fill:codes-kept")
+		b := m.ToBytes()
+		rt.Assert(len(b) == 14+2+4+4, "message-fill:encodes")
+		if len(b) == 24 {
+			rt.Assert(int(b[4])<<8|int(b[5]) == sid, "message-fill:session-id-bytes")
+			rt.Assert(b[18] == byte(uint16(v)>>8) && b[19] == byte(v), "message-fill:value-bytes")
+		}
 	case 3:
 		// message name: k arbitrary 7-bit bytes; whitespace (TAB LF VT FF CR SP) is refused
 		k := rt.Param("k")
